@@ -35,7 +35,7 @@ Fixpoint stage2 (e : expr) : bool :=
   end.
 
 Lemma stage1_frag : forall e, stage1 e = true ->
-  frag e = true /\ shape_ok e = true /\ (forall b, seq_ok b e = true).
+  frag3 e = true /\ shape_ok e = true /\ (forall b, seq_ok b e = true).
 Proof.
   induction e; cbn; intros H; try discriminate; auto.
   - destruct o; try discriminate; destruct (IHe H) as (A & B & C); rewrite A, B; repeat split; auto.
@@ -46,7 +46,7 @@ Proof.
   - destruct (IHe H) as (A & B & C). repeat split; auto.
 Qed.
 
-Lemma stage2_frag : forall e, stage2 e = true -> frag e = true.
+Lemma stage2_frag : forall e, stage2 e = true -> frag3 e = true.
 Proof.
   induction e; cbn; intros H; try discriminate; auto;
     try (apply andb_prop in H; destruct H as [H H2]; try (apply andb_prop in H; destruct H as [H0 H1]));
@@ -56,24 +56,21 @@ Proof.
 Qed.
 
 (* ---- known-finding classes ---- *)
-(* C01-K1: an else-chain whose last item is a conditional *)
-Fixpoint known_K1 (e : expr) : bool :=
+(* C01-K1: an else-chain whose last item is a conditional.
+   [ic]: the node is an item or a sub-chain of an else-chain above it. *)
+Fixpoint known_K1C (ic : bool) (e : expr) : bool :=
   match e with
   | ELit _ | EValue | EIdent _ => false
-  | EUn _ x | EGroup x | ENested _ x | EReapply x => known_K1 x
-  | EElse l r => is_cond r || known_K1 l || known_K1 r
-  | EBin _ l r | EAnd l r | EOr l r | EList _ l r | ECond _ l r | ESeq _ l r | ESide l r => known_K1 l || known_K1 r
+  | EUn _ x | EGroup x | ENested _ x | EReapply x => known_K1C false x
+  | EElse l r =>
+      if ic then known_K1C true l || known_K1C true r
+      else is_cond r || known_K1C true l || known_K1C false r
+  | EBin _ l r | EAnd l r | EOr l r | EList _ l r | ECond _ l r | ESeq _ l r | ESide l r =>
+      known_K1C false l || known_K1C false r
   end.
+Definition known_K1 (e : expr) : bool := known_K1C false e.
 
-(* C01-K2: `^~` lexically inside a side-effect block *)
-Fixpoint has_reapply (e : expr) : bool :=
-  match e with
-  | ELit _ | EValue | EIdent _ => false
-  | EReapply _ => true
-  | EUn _ x | EGroup x | ENested _ x => has_reapply x
-  | EBin _ l r | EAnd l r | EOr l r | EList _ l r | ECond _ l r | EElse l r | ESeq _ l r | ESide l r =>
-      has_reapply l || has_reapply r
-  end.
+(* C01-K2: a `^~` inside a side-effect block (outside any nested body within it) *)
 Fixpoint known_K2 (e : expr) : bool :=
   match e with
   | ELit _ | EValue | EIdent _ => false
@@ -81,6 +78,14 @@ Fixpoint known_K2 (e : expr) : bool :=
   | EUn _ x | EGroup x | ENested _ x | EReapply x => known_K2 x
   | EBin _ l r | EAnd l r | EOr l r | EList _ l r | ECond _ l r | EElse l r | ESeq _ l r => known_K2 l || known_K2 r
   end.
+
+Lemma not_K2_frag : forall e, known_K2 e = false -> frag e = true.
+Proof.
+  induction e; cbn; intros H; auto;
+    try (apply orb_false_elim in H; destruct H as [H1 H2]; rewrite IHe1, IHe2 by assumption; reflexivity).
+  apply orb_false_elim in H. destruct H as [H H2]. apply orb_false_elim in H. destruct H as [H0 H1].
+  rewrite IHe1, IHe2, H0 by assumption. reflexivity.
+Qed.
 
 (* ---- equal up to a renaming of expression values ---- *)
 Section Rel.
